@@ -64,3 +64,54 @@ func VH_C18_topath_Q() {
 		vAssertI("C18.topath.advance_is_text_width", vhNear(adv, face.textWidth(glyphs)) && vhNear(adv, f*float64(sx)))
 	}
 }
+
+// C18-H6: "path rendering and PDF rendering agree on where the text is".  The back-ends that draw
+// text natively (pdf, svg) take each span's position from Text.WalkSpans; the others go through
+// Text.RenderAsPath, which places the outlines with a matrix and FontFace.toPath.  For a laid-out
+// text (built directly: one line, one span, symbolic line position, span position, face offsets,
+// scale and advances, horizontal and vertical writing mode) the first glyph's outline origin under
+// RenderAsPath is the position WalkSpans reports, and the second glyph follows at the first
+// advance.  Interpreter-only (GlyphPath recorder).
+func VH_C18_span_positions_Q() {
+	if !vInterp() {
+		return
+	}
+	vStub("!(*github.com/tdewolff/font.SFNT).GlyphPath", vhC18GlyphPath)
+	f := vNondetF64()
+	vAssumeI(0.001 <= f && f <= 1)
+	sf := &font.SFNT{}
+	sf.Head = vhC16New(sf.Head)
+	sf.Head.UnitsPerEm = 1000
+	face := &FontFace{Font: &Font{SFNT: sf}, Size: 10, MmPerEm: f, Fill: Paint{Color: Black}}
+	face.XOffset, face.YOffset = int32(vNondetIntQ(11)), int32(vNondetIntQ(11))
+	vertical := vChoose(0, 1) == 1
+	lineY, spanX := vNondetF64(), vNondetF64()
+	vAssumeI(0 <= lineY && lineY <= 50 && 0 <= spanX && spanX <= 50)
+	a0 := int32(vNondetIntQ(12))
+	glyphs := []text.Glyph{{ID: 1, XAdvance: a0, Vertical: false}, {ID: 2, XAdvance: 500}}
+	mode := HorizontalTB
+	if vertical {
+		mode = VerticalRL
+	}
+	t := &Text{lines: []line{{y: lineY, spans: []TextSpan{{X: spanX, Width: 1, Face: face, Text: "ab", Glyphs: glyphs}}}}, WritingMode: mode, fonts: map[*Font]bool{}}
+	var wx, wy float64
+	n := 0
+	t.WalkSpans(func(x, y float64, span TextSpan) {
+		wx, wy = x, y
+		n++
+	})
+	vAssertI("C18.positions.one_span", n == 1)
+	vhC18Places = nil
+	rec := &vhC15Rec{w: 100, h: 100}
+	m := Identity.Translate(3, 4)
+	t.RenderAsPath(rec, m, 0)
+	vAssertI("C18.positions.one_path_two_glyphs", len(rec.calls) == 1 && rec.calls[0].kind == 0 && len(vhC18Places) == 2)
+	if len(rec.calls) != 1 || len(vhC18Places) != 2 {
+		return
+	}
+	g0 := rec.calls[0].m.Dot(Point{vhC18Places[0].x, vhC18Places[0].y})
+	g1 := rec.calls[0].m.Dot(Point{vhC18Places[1].x, vhC18Places[1].y})
+	want := m.Dot(Point{wx, wy})
+	vAssertI("C18.positions.first_glyph_where_walkspans_says", vhNear(g0.X, want.X) && vhNear(g0.Y, want.Y))
+	vAssertI("C18.positions.second_glyph_one_advance_on", vhNear(g1.X-g0.X, f*float64(a0)) && vhNear(g1.Y, g0.Y))
+}
